@@ -927,6 +927,13 @@ func c05Helper(call ssa.CallInstruction, from *ssa.Function) *ssa.Function {
 func (e *c05Env) up(v ssa.Value) (ssa.Value, *c05Env) {
 	cur := e
 	for i := 0; i < 12; i++ {
+		// value identity through struct fields that merely carry a value: a load of x.F where x is a
+		// struct literal built in this function or, for a method on a freshly built carrier struct,
+		// in the caller (closure turned into a struct with methods)
+		if nv, nat, ok := c05FieldCarry(v, cur); ok {
+			v, cur = nv, nat
+			continue
+		}
 		w := c05Unspill(v)
 		var p *ssa.Parameter
 		if q, ok := w.(*ssa.Parameter); ok {
@@ -1697,4 +1704,65 @@ func c05ErrFlow(call ssa.CallInstruction, o ErrFlowOpts) ErrFlowResult {
 		}
 	}
 	return ErrFlowResult{OK: true, How: "tested; every failure path returns a non-nil error (repeated tests of the same error resolved)"}
+}
+
+// c05FieldCarry: v is a load of field F of a struct that was built as a
+// literal (new T; stores to its fields) either in cur.Fn itself or — when the
+// struct is cur.Fn's parameter/receiver — at the call site in the parent, and
+// F is stored exactly once there: v is that stored value.
+func c05FieldCarry(v ssa.Value, cur *c05Env) (ssa.Value, *c05Env, bool) {
+	ld, ok := strip(v).(*ssa.UnOp)
+	if !ok || ld.Op != token.MUL {
+		return nil, nil, false
+	}
+	fa, ok := ld.X.(*ssa.FieldAddr)
+	if !ok {
+		return nil, nil, false
+	}
+	base, at := fa.X, cur
+	if p, isP := strip(base).(*ssa.Parameter); isP && cur.Call != nil && cur.Parent != nil && p.Parent() == cur.Fn {
+		idx := -1
+		for k, q := range cur.Fn.Params {
+			if q == p {
+				idx = k
+			}
+		}
+		args := cur.Call.Common().Args
+		if idx < 0 || idx >= len(args) {
+			return nil, nil, false
+		}
+		base, at = args[idx], cur.Parent
+	}
+	var lit *ssa.Alloc
+	for _, r := range Roots(base) {
+		a, isA := strip(r).(*ssa.Alloc)
+		if !isA || lit != nil {
+			return nil, nil, false
+		}
+		lit = a
+	}
+	if lit == nil || lit.Parent() != at.Fn {
+		return nil, nil, false
+	}
+	if _, isStruct := lit.Type().(*types.Pointer).Elem().Underlying().(*types.Struct); !isStruct {
+		return nil, nil, false
+	}
+	var val ssa.Value
+	n := 0
+	for _, r := range *lit.Referrers() {
+		fa2, isFA := r.(*ssa.FieldAddr)
+		if !isFA || fa2.Field != fa.Field {
+			continue
+		}
+		for _, r2 := range *fa2.Referrers() {
+			if st, isSt := r2.(*ssa.Store); isSt && st.Addr == ssa.Value(fa2) {
+				val = st.Val
+				n++
+			}
+		}
+	}
+	if n != 1 {
+		return nil, nil, false
+	}
+	return val, at, true
 }
